@@ -300,6 +300,19 @@ def rule_fading_noise(repo: Repo, rep: Report) -> int:
         want = P if mode == "power" else H.pow(2) * E() / N / L("snr_db")
         expect_out(rep, "VARIANCE-LAW" if mode == "power" else "SNR-LAW", fi, f"FlatFadingChannel.forward noise stage ({mode}; y = h*x{'; real input' if real_in else ''})", v, H, want, it, fi.node)
         n += 1
+    # the same law when the channel draws its own coefficients (csi is None): h comes from the generator methods, whatever
+    # the fading type
+    for mode in ("snr", "power"):
+        atoms = {
+            "csi is not None": False, "noise is not None": False, "self.snr_db is not None": mode == "snr", "self.avg_noise_power is not None": mode == "power",
+            "is_1d": False, "len(x.shape) > 2": False, "len(original_shape) > 2": False, "not torch.is_complex(x)": False, "torch.is_complex(x)": True, "torch.is_complex(y)": True,
+        }
+        attrs = {"self.avg_noise_power": SV("det", P) if mode == "power" else NONE_V, "self.snr_db": DBP("snr_db") if mode == "snr" else NONE_V}
+        models = {"self._generate_fading_coefficients": SV("det", H, tag="csi"), "self._expand_coefficients": SV("det", H, tag="csi")}
+        v, it = run_fn(repo, fi, {"x": SIG, "csi": NONE_V, "noise": NONE_V}, atoms, attrs, models=models)
+        want = P if mode == "power" else H.pow(2) * E() / N / L("snr_db")
+        expect_out(rep, "VARIANCE-LAW" if mode == "power" else "SNR-LAW", fi, f"FlatFadingChannel.forward noise stage ({mode}; own coefficients, y = h*x)", v, H, want, it, fi.node)
+        n += 1
     atoms = {"csi is not None": True, "noise is not None": True, "is_1d": False, "len(x.shape) > 2": False, "len(original_shape) > 2": False, "not torch.is_complex(x)": False}
     v, it = run_fn(repo, fi, {"x": SIG, "csi": SV("det", H, tag="csi"), "noise": SV("ext", tag="noise")}, atoms, {})
     expect_out(rep, "OVERRIDE", fi, "FlatFadingChannel.forward(csi=h, noise=n)", v, H, None, it, fi.node)
